@@ -36,9 +36,18 @@ DATARACE_CONST = re.compile(
     r"^std::(vector|deque|array|basic_string|__cxx11::basic_string)<.*>::(operator\[\]|begin|end|rbegin|rend|front|back|data|at)\(|"
     r"^std::(map|set|multimap|multiset|unordered_map|unordered_set|unordered_multimap|unordered_multiset)<.*>::(begin|end|find|lower_bound|upper_bound|equal_range|at)\(")
 
-HANDLER_CALL = re.compile(
-    r"std::function<void \(std::variant<yorel::yomm2::error.*\) const$|"
-    r"::error\(std::variant<yorel::yomm2::error")
+class _HandlerCall:
+    """calls of a policy's error handler: the std::function `error` object of vectored_error, or a
+    static member function `error(const error_type&)` of a facet (throw_error, user facets)."""
+    FN = re.compile(r"^std::function<void \(std::variant<yorel::yomm2::error, .*\) const$")
+    ST = re.compile(r"^(?!std::)[^()]*::error\(std::variant<yorel::yomm2::error, ")
+
+    def search(self, dname):
+        d = irq.strip_ret(dname)
+        return self.FN.search(d) or self.ST.search(d)
+
+
+HANDLER_CALL = _HandlerCall()
 
 
 class Effects:
